@@ -41,7 +41,10 @@ pub fn trace(n: usize, cap: usize, ops: &[Op], work: &std::path::Path, labels: &
             }
         }
         let lv = if i % 16 == 15 || i + 1 == ops.len() { FULL } else { LIGHT };
-        f.write_str(&digest(g.as_ref(), lv, labels));
+        match crate::rec::guarded(|| digest(g.as_ref(), lv, labels)) {
+            Ok(d) => f.write_str(&d),
+            Err(_) => f.write_str("PANIC-IN-QUERY"),
+        }
         out.push(f.0);
     }
     out
@@ -111,9 +114,17 @@ pub fn run_c19(cfg: &ShardCfg, out: &mut ShardOut) {
                 }
                 _ => {}
             }
-            if s.g.keys() != s.m.keys() {
-                let snap = s.g.snapshot();
-                s.m.resync(&snap);
+            match crate::rec::guarded(|| s.g.keys()) {
+                Ok(k) => {
+                    if k != s.m.keys() {
+                        let snap = s.g.snapshot();
+                        s.m.resync(&snap);
+                    }
+                }
+                Err(_) => {
+                    cut = true;
+                    break;
+                }
             }
         }
         if cut {
